@@ -2,6 +2,7 @@
 Every random choice comes from the one `random.Random` handed in."""
 from __future__ import annotations
 
+import os
 import random
 
 PRIMS = ["int", "float", "str", "bytes", "bool"]
@@ -27,7 +28,7 @@ def sub_types(t):
     if isinstance(t, str):
         return []
     k = t[0]
-    if k in ("enum", "lit", "cls", "td", "union"):
+    if k in ("enum", "lit", "cls", "td", "union", "nt"):
         return []
     if k == "tup":
         return list(t[1])
@@ -59,7 +60,7 @@ def type_classes(t):
     for x in walk_types(t):
         if isinstance(x, str):
             continue
-        if x[0] in ("cls", "td"):
+        if x[0] in ("cls", "td", "nt"):
             out.append(x[1])
         elif x[0] == "union":
             out.extend(x[1])
@@ -79,6 +80,13 @@ def reach_types(world, t):
                 out.append(f["ty"])
                 todo.extend(type_classes(f["ty"]))
     return out
+
+
+def reaches_nt(world, ci) -> bool:
+    """is class ci a NamedTuple class, or can an instance of it hold an instance of one (by declared field types)?"""
+    if world["classes"][ci]["kind"] == "nt":
+        return True
+    return any(not isinstance(x, str) and x[0] == "nt" for ty in reach_types(world, ("cls", ci)) for x in walk_types(ty))
 
 
 def reach_unions(world, t):
@@ -121,7 +129,12 @@ def supported(cfg, world, t, top=True, _seen=None, roundtrip=True) -> bool:
                 return False
         if k == "union" and cfg["tuple"] and roundtrip:
             return False  # the decision function of a class union only accepts mappings
-        members = [x[1]] if k in ("cls", "td") else (list(x[1]) if k == "union" else [])
+        if k == "nt" and not cfg["gen"]:
+            # a BaseConverter has no NamedTuple unstructure hook (the instance is left as it is): only NamedTuples
+            # whose fields are all of primitive types are within its support (as for heterogeneous tuples / NewTypes)
+            if not all(isinstance(f["ty"], str) and f["ty"] in PRIMS for f in world["classes"][x[1]]["fields"]):
+                return False
+        members = [x[1]] if k in ("cls", "td", "nt") else (list(x[1]) if k == "union" else [])
         for ci in members:
             if world["classes"][ci].get("recursive") == "self" and (not cfg["gen"] or cfg["tuple"]):
                 return False  # typing.Self is resolved by the generated dict hooks only (Converter, dict strategy)
@@ -136,8 +149,11 @@ def supported(cfg, world, t, top=True, _seen=None, roundtrip=True) -> bool:
 
 
 class Gen:
-    def __init__(self, rng: random.Random, max_depth=3, big=False, no_any=False, recursive=True, unions=False):
+    def __init__(self, rng: random.Random, max_depth=3, big=False, no_any=False, recursive=True, unions=False, nt=False):
         self.rng = rng
+        # typing.NamedTuple classes (kind 'nt') in worlds, ('nt', k) types; VERIF_NO_NT=1 switches them off (to measure
+        # what they change in a run's statistics)
+        self.nt = nt and not os.environ.get("VERIF_NO_NT")
         self.unions = unions  # class unions (automatic disambiguation): union families in worlds, union types
         self.recursive = recursive  # generate self-referential classes (typing.Self)
         self.max_depth = max_depth
@@ -186,6 +202,8 @@ class Gen:
     # ------------------------------------------------------------ worlds
     def world(self, n_classes=None, n_enums=None, kinds=("attrs", "dc", "td"), allow_untyped=True):
         r = self.rng
+        if self.nt and "nt" not in kinds:
+            kinds = tuple(kinds) + ("nt",)
         w = {"classes": [], "enums": []}
         for _ in range(r.randint(0, 2) if n_enums is None else n_enums):
             n = r.randint(1, 3)
@@ -205,7 +223,7 @@ class Gen:
         w["families"] = []
         for _ in range(n):
             if r.random() < 0.3 and ("attrs" in kinds or "dc" in kinds):
-                self.family(w, [k for k in kinds if k != "td"], allow_untyped)
+                self.family(w, [k for k in kinds if k not in ("td", "nt")], allow_untyped)
             w["classes"].append(self.cls(w, len(w["classes"]), kinds, allow_untyped))
         return w
 
@@ -279,7 +297,7 @@ class Gen:
             if len(ms) > 2 and r.random() < 0.3:
                 ms = r.sample(ms, 2)
         else:
-            cands = [i for i in range(n_cls) if w["classes"][i]["kind"] != "td"]
+            cands = [i for i in range(n_cls) if w["classes"][i]["kind"] not in ("td", "nt")]
             if len(cands) < 2:
                 return None
             ms = r.sample(cands, r.randint(2, min(3, len(cands))))
@@ -295,6 +313,8 @@ class Gen:
     def cls(self, w, ci, kinds, allow_untyped=True):
         r = self.rng
         kind = r.choice(kinds)
+        if kind == "nt":
+            return self.nt_cls(w, ci)
         frozen = kind != "td" and r.random() < 0.35
         names = r.sample(FIELD_NAMES, r.randint(0, 4))
         fields = []
@@ -364,6 +384,22 @@ class Gen:
             fields = out
         return {"kind": kind, "frozen": frozen, "fields": fields, "slots": r.random() < 0.5, "recursive": recursive}
 
+    def nt_cls(self, w, ci):
+        """a typing.NamedTuple class: every field annotated (no leading underscore), defaults on a suffix of the fields
+        (plain values: they are class attributes), nothing else to configure"""
+        r = self.rng
+        names = r.sample([n for n in FIELD_NAMES if not n.startswith("_")] + ["f", "g"], r.randint(0, 4))
+        fields = []
+        n_dflt = r.randint(0, len(names)) if r.random() < 0.5 else 0
+        for i, n in enumerate(names):
+            ty = self.type(w, depth=r.randint(0, self.max_depth - 1), max_cls=ci, allow_any=not self.no_any)
+            f = {"name": n, "alias": n, "ty": ty, "dflt": None, "init": True, "required": True, "kw_only": False}
+            if i >= len(names) - n_dflt:
+                v = self.value(w, ty, 2, any_stable=True)
+                f["dflt"] = ("c", v)
+            fields.append(f)
+        return {"kind": "nt", "frozen": True, "fields": fields, "slots": False, "recursive": None}
+
     # ------------------------------------------------------------ types
     def type(self, w, depth, max_cls=None, field=False, hashable=False, allow_any=True):
         r = self.rng
@@ -372,6 +408,10 @@ class Gen:
             u = self.union_type(w, n_cls)
             if u is not None:
                 return u
+        if self.nt and not hashable and r.random() < 0.07:
+            nts = [i for i in range(n_cls) if w["classes"][i]["kind"] == "nt"]
+            if nts:
+                return ("nt", r.choice(nts))
         if hashable:
             c = r.random()
             if c < 0.55:
@@ -397,7 +437,7 @@ class Gen:
                 return self.lit()
             if n_cls > 0:
                 ci = r.randrange(n_cls)
-                return ("td" if w["classes"][ci]["kind"] == "td" else "cls", ci)
+                return ({"td": "td", "nt": "nt"}.get(w["classes"][ci]["kind"], "cls"), ci)
             return r.choice(PRIMS)
         c = r.random()
         if c < 0.22:
@@ -472,6 +512,10 @@ class Gen:
             return ("N",) if (r.random() < 0.3 or depth < -1) else self.value(w, t[1], depth, any_stable)
         if k in ("new", "ann", "final", "alias"):
             return self.value(w, t[1], depth, any_stable)
+        if k == "nt":
+            c = w["classes"][t[1]]
+            return ("I", t[1], [(f["name"], f["dflt"][1] if (f["dflt"] is not None and r.random() < 0.3)
+                                 else self.value(w, f["ty"], depth - 1, any_stable)) for f in c["fields"]])
         if k == "cls":
             c = w["classes"][t[1]]
             fs = []
@@ -500,7 +544,7 @@ class Gen:
             return ("d", kvs)
         raise ValueError(t)
 
-    def any_value(self, w, depth, stable):
+    def any_value(self, w, depth, stable, no_nt=False):
         r = self.rng
         c = r.random()
         if c < 0.6 or depth <= 0:
@@ -510,7 +554,7 @@ class Gen:
                 return ("l", [self.any_leaf() for _ in range(r.randint(0, 2))])
             return ("d", self._uniq_kvs([(self.leaf_of(r.choice(["int", "str"])), self.any_leaf()) for _ in range(r.randint(0, 2))]))
         if c < 0.7:
-            return (r.choice(["l", "t", "q"]), [self.any_value(w, depth - 1, stable) for _ in range(r.randint(0, 2))])
+            return (r.choice(["l", "t", "q"]), [self.any_value(w, depth - 1, stable, no_nt) for _ in range(r.randint(0, 2))])
         if c < 0.76:
             xs = []
             for _ in range(r.randint(0, 2)):
@@ -519,14 +563,15 @@ class Gen:
                     xs.append(v)
             return (r.choice(["S", "F"]), xs)
         if c < 0.84:
-            return ("d", self._uniq_kvs([(self.any_leaf(), self.any_value(w, depth - 1, stable)) for _ in range(r.randint(0, 2))]))
+            return ("d", self._uniq_kvs([(self.any_leaf(), self.any_value(w, depth - 1, stable, no_nt)) for _ in range(r.randint(0, 2))]))
         if c < 0.9 and w["enums"]:
             e = r.randrange(len(w["enums"]))
             return ("e", e, r.randrange(len(w["enums"][e])))
         if c < 0.96:
-            cands = [i for i, cl in enumerate(w["classes"]) if cl["kind"] != "td"]
+            cands = [i for i, cl in enumerate(w["classes"]) if cl["kind"] != "td" and not (no_nt and reaches_nt(w, i))]
             if cands:
-                return self.value(w, ("cls", r.choice(cands)), depth - 1, stable)
+                ci = r.choice(cands)
+                return self.value(w, ("nt" if w["classes"][ci]["kind"] == "nt" else "cls", ci), depth - 1, stable)
         return ("o", r.randint(0, 3))
 
     def _uniq_kvs(self, kvs):
@@ -542,7 +587,9 @@ class Gen:
         c = r.random()
         if c < 0.5 or depth <= 0:
             return self.any_leaf()
-        return self.any_value(w, depth, False)
+        # (no instances of NamedTuple classes in payloads: they ARE tuples for the structuring code -- the model's
+        # payloads hold the plain tuples instead)
+        return self.any_value(w, depth, False, no_nt=True)
 
     def mutate(self, w, o, n_mut=1):
         """apply n_mut random local edits to an unstructured payload"""
